@@ -218,7 +218,14 @@ class Observer:
                 continue            # synchrony is C16's business; nothing can be demanded here
             lower = sum(1 for s_ in seqs if s_ <= a)
             upper = sum(1 for s_ in seqs if s_ < r_seq)
-            ok = any(all(_same(snap[L], states[j][L]) for L in ALPHABET) for j in range(lower, upper + 1))
+            # Reports up to the acknowledgement must be fully absorbed; a report that is still
+            # being parsed by the read thread when write() returns may be absorbed partially
+            # (the property makes no atomicity claim), so letters are judged independently
+            # over the in-flight window.
+            ok = all(any(_same(snap[L], states[j][L]) for j in range(lower, upper + 1)) for L in ALPHABET)
+            if ok and not any(all(_same(snap[L], states[j][L]) for L in ALPHABET)
+                              for j in range(lower, upper + 1)):
+                k.probe("c18.torn_snapshot_of_in_flight_report")
             if ok:
                 if lower:
                     k.probe("c18.snapshot_checked")
